@@ -138,14 +138,20 @@ theorem decryptPipe_eq (c : Crypto) (cd : Codec) (P : EncParams) (hs : 0 < P.seg
           cases verifyHeader c cd P _ ml cl with
           | some e => rfl
           | none =>
-            simp only []
-            rw [psWrites_flatten _ _ (by omega)]
+            simp only [Bool.true_and]
+            by_cases hu : unwrapFailed true P o m (if o.keyName.isEmpty then m.keyName else o.keyName) = true
+            · simp only [hu, if_true]; rfl
+            · simp only [hu, Bool.false_eq_true, if_false]
+              rw [psWrites_flatten _ _ (by omega)]
 
 theorem encryptPipe_eq (c : Crypto) (cd : Codec) (P : EncParams) (hs : 0 < P.segSize) (o : EncryptOpts)
     (fk np wfk : Bytes) (r : Reader) :
     ((encryptPipe c cd P o fk np wfk r).1.flatten, (encryptPipe c cd P o fk np wfk r).2) =
       encryptImpl c cd P o fk np wfk r := by
   unfold encryptPipe encryptImpl
+  by_cases hw : wfk.isEmpty = true
+  · simp [hw]
+  simp only [hw, Bool.false_eq_true, if_false]
   by_cases hh : (signHeader c cd P fk (cd.render (mkManifest o wfk np))).length > P.segSize
   · simp [hh]
   · simp only [hh, if_false, List.flatten_cons]
